@@ -1,4 +1,5 @@
 import RedisVerif.Driver.C07
+import RedisVerif.Driver.C15
 
 open RedisVerif.Driver
 
@@ -13,4 +14,5 @@ def main (args : List String) : IO UInt32 := do
   let stdout ← IO.getStdout
   match args with
   | ["C07"] => loop stdin stdout C07.step; return 0
+  | ["C15"] => loop stdin stdout C15.step; return 0
   | _ => IO.eprintln "usage: rvdriver <property-id> < ops"; return 2
